@@ -30,7 +30,10 @@ type e5Exception struct {
 	requires []string
 }
 
-// srcExpr returns the source text of the index/slice expression whose '[' is at pos.
+// srcExpr returns a canonical source text of the index/slice expression whose '[' is at pos: the expression as
+// written, except that a local variable with exactly one definition (`x := e`, never reassigned, never
+// address-taken) is replaced by its defining expression.  Renaming such a local, or hoisting a subexpression into
+// one, therefore does not change the text — exception keys stay attached to the same computation.
 func srcExpr(p *Program, pos token.Pos) string {
 	if !pos.IsValid() {
 		return ""
@@ -44,24 +47,173 @@ func srcExpr(p *Program, pos token.Pos) string {
 			if p.Fset.File(f.Pos()) != file {
 				continue
 			}
-			out := ""
-			ast.Inspect(f, func(n ast.Node) bool {
-				switch t := n.(type) {
-				case *ast.IndexExpr:
-					if t.Lbrack == pos {
-						out = types.ExprString(t)
-					}
-				case *ast.SliceExpr:
-					if t.Lbrack == pos {
-						out = types.ExprString(t)
-					}
+			var target ast.Expr
+			var encl ast.Node // innermost enclosing FuncDecl
+			for _, d := range f.Decls {
+				fd, ok := d.(*ast.FuncDecl)
+				if !ok || fd.Body == nil || pos < fd.Pos() || pos > fd.End() {
+					continue
 				}
-				return out == ""
-			})
-			return out
+				encl = fd
+				ast.Inspect(fd, func(n ast.Node) bool {
+					switch t := n.(type) {
+					case *ast.IndexExpr:
+						if t.Lbrack == pos {
+							target = t
+						}
+					case *ast.SliceExpr:
+						if t.Lbrack == pos {
+							target = t
+						}
+					}
+					return target == nil
+				})
+			}
+			if target == nil {
+				return ""
+			}
+			return canonText(pk.TypesInfo, encl, target, 0)
 		}
 	}
 	return ""
+}
+
+// singleDef returns the defining expression of a local variable that is defined once and never modified.
+func singleDef(info *types.Info, encl ast.Node, obj types.Object) ast.Expr {
+	var def ast.Expr
+	ndef, bad := 0, false
+	ast.Inspect(encl, func(n ast.Node) bool {
+		switch t := n.(type) {
+		case *ast.AssignStmt:
+			for i, l := range t.Lhs {
+				id, ok := l.(*ast.Ident)
+				if !ok {
+					continue
+				}
+				if info.Defs[id] == obj {
+					ndef++
+					if len(t.Lhs) == len(t.Rhs) {
+						def = t.Rhs[i]
+					} else {
+						bad = true
+					}
+				} else if info.Uses[id] == obj {
+					bad = true // reassigned
+				}
+			}
+		case *ast.ValueSpec:
+			for i, id := range t.Names {
+				if info.Defs[id] == obj {
+					ndef++
+					if len(t.Values) == len(t.Names) {
+						def = t.Values[i]
+					} else {
+						bad = true
+					}
+				}
+			}
+		case *ast.IncDecStmt:
+			if id, ok := t.X.(*ast.Ident); ok && info.Uses[id] == obj {
+				bad = true
+			}
+		case *ast.UnaryExpr:
+			if id, ok := t.X.(*ast.Ident); ok && t.Op == token.AND && info.Uses[id] == obj {
+				bad = true
+			}
+		case *ast.RangeStmt:
+			for _, e := range []ast.Expr{t.Key, t.Value} {
+				if id, ok := e.(*ast.Ident); ok && (info.Defs[id] == obj || info.Uses[id] == obj) {
+					bad = true
+				}
+			}
+		}
+		return true
+	})
+	if bad || ndef != 1 || def == nil {
+		return nil
+	}
+	switch t := def.(type) {
+	case *ast.FuncLit, *ast.CompositeLit:
+		return nil
+	case *ast.UnaryExpr:
+		if _, isLit := t.X.(*ast.CompositeLit); isLit {
+			return nil
+		}
+	}
+	return def
+}
+
+func canonText(info *types.Info, encl ast.Node, e ast.Expr, depth int) string {
+	if depth > 4 || info == nil || encl == nil {
+		return types.ExprString(e)
+	}
+	subst := map[*ast.Ident]string{}
+	ast.Inspect(e, func(n ast.Node) bool {
+		switch t := n.(type) {
+		case *ast.FuncLit:
+			return false
+		case *ast.SelectorExpr:
+			// only the operand can be a local
+			ast.Inspect(t.X, func(m ast.Node) bool {
+				if id, ok := m.(*ast.Ident); ok {
+					if s, ok := canonIdent(info, encl, id, depth); ok {
+						subst[id] = s
+					}
+				}
+				return true
+			})
+			return false
+		case *ast.Ident:
+			if s, ok := canonIdent(info, encl, t, depth); ok {
+				subst[t] = s
+			}
+		}
+		return true
+	})
+	if len(subst) == 0 {
+		return types.ExprString(e)
+	}
+	return exprStringSubst(e, subst)
+}
+
+func canonIdent(info *types.Info, encl ast.Node, id *ast.Ident, depth int) (string, bool) {
+	v, ok := info.Uses[id].(*types.Var)
+	if !ok || v.IsField() || v.Parent() == nil || v.Pkg() == nil || v.Parent() == v.Pkg().Scope() {
+		return "", false
+	}
+	def := singleDef(info, encl, v)
+	if def == nil {
+		return "", false
+	}
+	s := canonText(info, encl, def, depth+1)
+	switch def.(type) {
+	case *ast.BinaryExpr, *ast.UnaryExpr, *ast.StarExpr:
+		s = "(" + s + ")"
+	}
+	return s, true
+}
+
+// exprStringSubst renders e with some identifiers replaced by text.
+func exprStringSubst(e ast.Expr, subst map[*ast.Ident]string) string {
+	// render through a copy in which the identifiers carry unique marker names
+	marks := map[string]string{}
+	i := 0
+	saved := map[*ast.Ident]string{}
+	for id, s := range subst {
+		m := fmt.Sprintf("vtSUBST%dX", i)
+		i++
+		marks[m] = s
+		saved[id] = id.Name
+		id.Name = m
+	}
+	out := types.ExprString(e)
+	for id, n := range saved {
+		id.Name = n
+	}
+	for m, s := range marks {
+		out = strings.ReplaceAll(out, m, s)
+	}
+	return out
 }
 
 func checkPremises(p *Program, fn *ssa.Function, in ssa.Instruction, ex e5Exception) string {
